@@ -211,15 +211,17 @@ Qed.
 
 Lemma run_input_ahist_off f now s i : f_acc_hist f = false -> s_ahist (outcome_state (run_input f now s i) s) = s_ahist s.
 Proof.
-  intros Fh. destruct i as [ps ts ref md amd force | id force at_eff rmeta | [a|id] md | [a|id] k]; simpl.
-  - destruct ps as [|p ps']; [reflexivity|].
+  intros Fh. script_split i.
+  { simpl. unfold create_tx. destruct ps as [|p ps']; [reflexivity|].
     destruct (feasible force (s_vols s) (p :: ps')); simpl; [|reflexivity].
     destruct (commit_transaction f now s (p :: ps') md ts ref) as [s1 [x|]] eqn:E; simpl.
     + pose proof (commit_some _ _ _ _ _ _ _ _ _ E) as (_ & _ & _ & _ & _ & _ & _ & _ & _ & _ & _ & _ & _ & _ & Hh & _).
       unfold upsert_tx_accounts. rewrite Fh.
       pose proof (upsert_fold_off now (amd_get amd) (Some (t_ts x)) (Some (t_ins x)) (Some (t_ins x)) (involved_accounts (t_postings x) amd) (s_accounts s1, s_ahist s1)) as A.
       destruct (fold_left _ _ (s_accounts s1, s_ahist s1)) as [a1 h1]. cbn [snd s_ahist] in *. rewrite A. exact Hh.
-    + pose proof (commit_none _ _ _ _ _ _ _ _ E) as (_ & _ & _ & _ & Hh & _). exact Hh.
+    + pose proof (commit_none _ _ _ _ _ _ _ _ E) as (_ & _ & _ & _ & Hh & _). exact Hh. }
+  destruct i as [ps ts ref md amd force | id force at_eff rmeta | [a|id] md | [a|id] k | ps ts ref md amd force smd samd];
+    [apply Hc | | | | | | script_bullet Hc]; simpl.
   - destruct (find_tx (s_txs s) id) as [x|]; [|reflexivity].
     destruct (t_rev x); [reflexivity|].
     match goal with |- context [match ?c with RCOk => _ | RCInsufficient => _ | RCPanic => _ end] => destruct c end;
